@@ -426,15 +426,16 @@ theorem c06_colony_operations (c : List Member) (name : List Nat) (w : Rat) :
   refine ⟨by simp [addAgent], fun m hm => by simp [addAgent, hm], removeAgent_length c name,
     removeAgent_sub c name, setAgentWeight_names c name w⟩
 
-/-- Every result produced by any history of operations on a quorum object (strategy changes, members added —
-    also under a name already in use — and removed, weights set by name or assigned, votes with arbitrary agent
-    behaviour, `update_reliability` / `update_all_reliability`) is the `runVote` of an electorate in the property's
+/-- Every result produced by any history of operations on a quorum object (strategy changes through `set_strategy`
+    or by assigning `strategy` / `custom_threshold` / `min_voters` directly, members added — also under a name
+    already in use — removed, deleted from or inserted into the `colony` list itself, weights set by name or assigned,
+    votes with arbitrary agent behaviour, `update_reliability` / `update_all_reliability`) is the `runVote` of an electorate in the property's
     domain under a configuration with a non-negative threshold: so every theorem above applies to every vote of
     every history.  Hypotheses: the object starts in the domain and the operations' arguments are in it. -/
 theorem c06_history_every_vote_in_domain (st : QState) (ops : List Op) (hst : st.Valid)
     (hops : ∀ op ∈ ops, op.Valid) :
     ∀ r ∈ runHistory st ops, ∃ cfg voters, r = runVote cfg voters ∧ NonNegThreshold cfg ∧
-      (∀ v ∈ voters, v.Valid) ∧ cfg.minVoters = st.cfg.minVoters :=
+      (∀ v ∈ voters, v.Valid) :=
   history_results ops st hst hops
 
 /-- … spelled out for the soundness clauses: at every vote of every history, PERMIT is reported only with a permit
@@ -448,7 +449,7 @@ theorem c06_history_votes_are_sound (st : QState) (ops : List Op) (hst : st.Vali
       (∃ cfg, NonNegThreshold cfg ∧ (r.reached = true ↔ Criterion cfg r.votes.length r.votes)) ∧
       r.total = r.votes.length ∧ r.permit = nP r.votes ∧ r.block = nB r.votes ∧ r.abstain = nA r.votes := by
   intro r hr
-  obtain ⟨cfg, voters, rfl, hn, hv, -⟩ := history_results ops st hst hops r hr
+  obtain ⟨cfg, voters, rfl, hn, hv⟩ := history_results ops st hst hops r hr
   obtain ⟨c1, c2, c3, c4, c5⟩ := counts_eq cfg voters.length (collect voters)
   have hvotes : (runVote cfg voters).votes = collect voters := c5
   refine ⟨c06_permit_iff_reached cfg voters, ?_, ⟨cfg, hn, ?_⟩, ?_, ?_, ?_, ?_⟩
@@ -464,6 +465,26 @@ theorem c06_history_votes_are_sound (st : QState) (ops : List Op) (hst : st.Vali
   · unfold runVote; rw [c2, c5]
   · unfold runVote; rw [c3, c5]
   · unfold runVote; rw [c4, c5]
+
+/-- A vote is decided by — and reported under — the configuration in force when it is taken, however that
+    configuration got there: after assigning `strategy`, `custom_threshold` and `min_voters` directly (no setter),
+    the next vote is exactly `runVote` under the assigned values on the colony as it stands; `set_strategy` gives
+    the same result as the two assignments. -/
+theorem c06_assigned_configuration_decides_the_vote (st : QState) (s : Strategy) (custom : Option Rat) (n : Nat)
+    (beh : Nat → Behaviour) :
+    (∀ r, (stepOp (stepOp (stepOp (stepOp st (.assignStrategy s)).1 (.assignThreshold custom)).1
+        (.assignMinVoters n)).1 (.vote beh)).2 = some r →
+      r = runVote ⟨s, custom, n⟩ (electorate st.colony beh)) ∧
+    (stepOp (stepOp st (.setStrategy s custom)).1 (.vote beh)).2 =
+      (stepOp (stepOp (stepOp st (.assignStrategy s)).1 (.assignThreshold custom)).1 (.vote beh)).2 := by
+  constructor
+  · intro r hr
+    simp only [stepOp] at hr
+    by_cases h : runVoteRaises ⟨s, custom, n⟩ (electorate st.colony beh) = true
+    · simp [h] at hr
+    · simp only [h] at hr
+      exact (Option.some.inj hr).symm
+  · simp only [stepOp]; rfl
 
 /-- a concrete history in the domain: a colony [Bacterium_0, Replica, Replica] under UNANIMOUS; the first Replica
     blocks — BLOCK, three ballots counted; the first Replica is removed by name, the rest permit — PERMIT;
